@@ -95,6 +95,11 @@ def _job(idx: int) -> List[Dict[str, Any]]:
             r_, p_ = el.items
             if "float" in (r_.kinds or {"float"}) and r_.kinds != frozenset({"int"}):
                 problems.append(f"the rank component is not an integer ({short(r_)})")
+            if case == "2 teams":
+                # ---- R11.6 with two teams there is one pair: the interval analysis bounds each probability by [0, 1]
+                okr = p_.rng is not None and p_.rng.lo >= 0.0 and p_.rng.hi <= 1.0
+                inst("R11.6", "HOLDS" if okr else "VIOLATED", "two teams: each returned probability lies in [0, 1]",
+                     "" if okr else f"the interval analysis gives {p_.rng} for a two-team rank probability: the single pair term is not divided by the number of pairs (1)", {"range": str(p_.rng)})
             if p_.sym is not None:
                 heads = set()
                 _heads(p_.sym, heads)
@@ -102,6 +107,36 @@ def _job(idx: int) -> List[Dict[str, Any]]:
                 if case != "2 teams" and not ({h for h in heads if h == K} and not {h for h in heads if h != K and h[0] != "oth"}):
                     problems.append(f"the probability at position k is not that of teams[k] (team positions used: {sorted(map(str, heads))})")
         inst("R11.3", "VIOLATED" if problems else "HOLDS", f"one (rank, probability) pair per team in input order ({case})", "; ".join(problems))
+    # ---- R11.7 the ranks are computed from the very numbers that are returned (or a strictly monotone image of them)
+    for oc, case in ((rk, "3..8 teams"), (rk2, "2 teams")):
+        I, st = oc.I, oc.world.state
+        seq = I.list_seq(st, oc.result) if isinstance(oc.result, Ptr) else None
+        el = seq.elem if seq is not None else None
+        if not (isinstance(el, TupleV) and len(el.items) == 2 and isinstance(el.items[1], Num)):
+            continue
+        calls = [ev for ev in I.events if ev.kind == "call" and ev.data["callee"].endswith("::_rank_data") and ev.data["args"]]
+        if not calls:
+            inst("R11.7", "UNDECIDED", f"ranks are computed from the returned probabilities ({case})", "vanished anchor: no call of _rank_data found in predict_rank")
+            continue
+        src = I.to_seq(calls[-1].data["args"][0], st, calls[-1].node)
+        ret = el.items[1]
+        se = src.elem if src is not None else None
+        if not isinstance(se, Num) or se.sym is None or ret.sym is None:
+            inst("R11.7", "UNDECIDED", f"ranks are computed from the returned probabilities ({case})", "the ranked or the returned numbers have no symbolic term")
+            continue
+        from ..ai.values import subst_sym
+
+        a = to_poly(subst_sym(se.sym, {src.kvar: ivar("$pos")}))
+        b = to_poly(subst_sym(ret.sym, {seq.kvar: ivar("$pos")}))
+        ok = a is not None and b is not None and (a == b or a == p_neg(b))
+        if not ok and a is not None and b is not None and a and b and set(a) == set(b):
+            ratios = {a[m_] / b[m_] for m_ in b}
+            ok = len(ratios) == 1 and ratios.pop() != 0  # a non-zero constant multiple
+        lossy: List = []
+        find_calls(se.sym, lambda n_: n_ in ("round", "int", "math.floor", "math.ceil", "math.trunc"), lossy)
+        inst("R11.7", "HOLDS" if ok else ("VIOLATED" if lossy else "UNDECIDED"), f"ranks are computed from the returned probabilities ({case})",
+             "" if ok else (f"the numbers handed to the ranking are a rounded/truncated image ({lossy[0][1]}) of the probabilities that are returned: two teams with different returned "
+                            "probabilities can share a rank" if lossy else f"the ranked numbers {show(a, 160)} are not the returned probabilities {show(b, 160)} (nor a constant multiple)"))
     # ---- R11.1 / R11.2 on 3..8 teams
     I, st = rk.I, rk.world.state
     seq = I.list_seq(st, rk.result) if isinstance(rk.result, Ptr) else None
@@ -141,6 +176,113 @@ def _job(idx: int) -> List[Dict[str, Any]]:
     return out
 
 
+def _weak_orderings(n: int):
+    """All weak orderings of n items as tuples of dense levels (0 = smallest)."""
+    import itertools
+
+    seen = set()
+    for t in itertools.product(range(n), repeat=n):
+        lv = sorted(set(t))
+        d = tuple(lv.index(x) for x in t)
+        if d not in seen:
+            seen.add(d)
+            yield d
+
+
+def _ranks_job(job) -> List[Dict[str, Any]]:
+    """R11.4 the ranking clause on the finite set of orderings. The probabilities reach the ranks only through comparisons
+    (sorting, tie detection), so for n teams the ranks are a function of the weak ordering of the n probabilities: for
+    n = 2 and n = 3 every weak ordering (3 and 13) is assumed in turn (3-point order domain), the ranking code is evaluated
+    on it — the sort becomes concrete, the tie scan runs on constants — and the resulting integers are compared with the
+    statement: larger probability => strictly better rank, equal => equal, the most likely team has rank 1, ranks in 1..n."""
+    idx, n = job
+    prog = Program()
+    roles = prog.roles()[idx]
+    mod = roles.model.module.name
+    mr = roles.model.lookup("predict_rank")
+    entry = f"{roles.model.name}.predict_rank"
+    out: List[Dict[str, Any]] = []
+
+    def inst(verdict, construct, message="", detail=None):
+        out.append(dict(rule="R11.4", verdict=verdict, module=mod, function=entry, construct=construct, line=mr.node.lineno, message=message, detail=detail or {}))
+
+    from ..ai.values import FuncV, subst_val
+
+    captured: Dict[str, Any] = {}
+
+    def spell_out(I, fv, args, kwargs, node):
+        fi = getattr(fv, "fi", None)
+        if fi is None or fi.name != "_rank_data" or not args:
+            return None
+        st = I.hook_state
+        sq = I.to_seq(args[0], st, node)
+        conc = I.bi.concretise(sq, n) if sq is not None else None
+        if conc is None:
+            captured["fail"] = f"the ranked sequence is not known to have exactly {n} positions ({short(sq) if sq is not None else short(args[0])})"
+            return None
+        captured["items"] = conc.fixed
+        return [I.new_list(st, list(conc.fixed), node)] + list(args[1:]), kwargs
+
+    def run_with(rels):
+        def setup(w):
+            opaque_setup(prog)(w)
+            w.I.hooks["call-args"] = spell_out
+            for a, b, r in rels:
+                w.state.rel_set(a, b, frozenset({r}))
+
+        return run_op(prog, roles, "predict_rank", n=(n, n), box=Box(ranges=True, players=(1, 8)), setup=setup)
+
+    try:
+        run_with([])
+    except Exception as e:
+        inst("UNDECIDED", f"ranking on every weak ordering of {n} probabilities", f"abstract evaluation failed: {type(e).__name__}: {e}")
+        return out
+    items = captured.get("items")
+    if items is None or not all(isinstance(x, Num) and x.sym is not None for x in items) or len({x.sym for x in items}) != n:
+        inst("UNDECIDED", f"ranking on every weak ordering of {n} probabilities", captured.get("fail") or "vanished anchor: no call of _rank_data with symbolic per-team numbers found in predict_rank")
+        return out
+    syms = [x.sym for x in items]
+    bad = 0
+    total = 0
+    for lv in _weak_orderings(n):
+        total += 1
+        rels = [(syms[i], syms[j], "LT" if lv[i] < lv[j] else "GT" if lv[i] > lv[j] else "EQ") for i in range(n) for j in range(i + 1, n)]
+        desc = " , ".join(f"p{i}" + ("<" if lv[i] < lv[j] else ">" if lv[i] > lv[j] else "=") + f"p{j}" for i in range(n) for j in range(i + 1, n))
+        try:
+            oc = run_with(rels)
+        except Exception as e:
+            inst("UNDECIDED", f"ordering {desc}", f"abstract evaluation failed: {type(e).__name__}: {e}")
+            continue
+        if oc.undecided or not oc.returned or oc.raises:
+            inst("UNDECIDED" if oc.undecided or not oc.raises else "VIOLATED", f"ordering {desc}", "; ".join(oc.undecided[:2]) or f"predict_rank does not return (raises {[e.data['exc'] for e in oc.raises]})")
+            continue
+        sq = oc.I.list_seq(oc.world.state, oc.result) if isinstance(oc.result, Ptr) else None
+        ranks = None
+        if sq is not None and sq.fixed is not None and len(sq.fixed) == n and all(isinstance(x, TupleV) and len(x.items) == 2 and isinstance(x.items[0], Num) for x in sq.fixed):
+            ranks = [x.items[0].const for x in sq.fixed]
+        if ranks is None or any(not isinstance(r, int) or isinstance(r, bool) for r in ranks):
+            inst("UNDECIDED", f"ordering {desc}", f"the ranks are not constants under this ordering ({short(sq) if sq is not None else short(oc.result)})")
+            continue
+        problems = []
+        for i in range(n):
+            if not 1 <= ranks[i] <= n:
+                problems.append(f"rank {ranks[i]} outside 1..{n}")
+            for j in range(n):
+                if lv[i] > lv[j] and not ranks[i] < ranks[j]:
+                    problems.append(f"p{i} > p{j} but rank {ranks[i]} is not better than {ranks[j]}")
+                if lv[i] == lv[j] and ranks[i] != ranks[j]:
+                    problems.append(f"p{i} = p{j} but ranks {ranks[i]} != {ranks[j]}")
+        top = [ranks[i] for i in range(n) if lv[i] == max(lv)]
+        if any(r != 1 for r in top):
+            problems.append(f"the most likely team has rank {top[0]}, not 1")
+        if problems:
+            bad += 1
+            inst("VIOLATED", f"ordering {desc}", f"ranks {ranks}: " + "; ".join(sorted(set(problems))[:3]), {"ranks": ranks})
+    if not out:
+        inst("HOLDS", f"ranking is right on every weak ordering of {n} probabilities", "", {"orderings": total})
+    return out
+
+
 def run(prog: Program, rep: Report, tier: str = "quick") -> None:
     roles = prog.roles()
     rep.explanation = (
@@ -151,7 +293,7 @@ def run(prog: Program, rep: Report, tier: str = "quick") -> None:
     rep.rule_text = "per model: margin/scale agreement, normaliser ratio, result shape for 2 and 3..8 teams"
     rep.trust("abstract interpreter osv/ai; osv/poly.py normal form; pair-chunking axiom; _rank_data returns a list positionally aligned with its argument (allocates [0]*len and assigns by index)")
     rep.not_decided = ["the competition-ranking logic of _rank_data and the reversal against the maximum (run-time ordering of floats)", "probabilities in [0, 1]"]
-    for lst in parallel_map(_job, list(range(len(roles)))):
+    for lst in parallel_map(_job, list(range(len(roles)))) + parallel_map(_ranks_job, [(i, n) for i in range(len(roles)) for n in (2, 3)]):
         for d in lst:
             rep.add(Instance(d["rule"], d["verdict"], d["module"], d["function"], d["construct"], d["line"], d.get("message", ""), d.get("detail", {})))
     n = len(roles)
